@@ -181,7 +181,9 @@ Render(e, tok, p) ==
        nb == TypeSize(t)
    IN
    IF t = "str" THEN
-        IF tok.f = "" /\ \A k \in (off + 1)..Len(p) : p[k] = 0 \/ (p[k] >= 32 /\ p[k] <= 126)
+        \* printable ASCII and bytes >= 128 (UTF-8 labels) are copied as they are; what is done with control
+        \* characters is not defined
+        IF tok.f = "" /\ \A k \in (off + 1)..Len(p) : p[k] = 0 \/ (p[k] >= 32 /\ p[k] <= 126) \/ (p[k] >= 128 /\ p[k] <= 255)
         THEN [ok |-> TRUE, s |-> CStr(p, off)] ELSE [ok |-> FALSE, s |-> ""]
    ELSE IF off + nb > Len(p) THEN [ok |-> FALSE, s |-> ""]
    ELSE IF tok.f = "" THEN [ok |-> TRUE, s |-> DecStr(Slice(p, off, nb), IsSigned(t))]
